@@ -14,6 +14,7 @@ pub struct BlockDecoder {
     pub completed: bool,
     pub initialized: bool,
     pub block_size: usize,
+    encoding_symbol_length: usize,
     decoder: Option<Box<dyn FecDecoder>>,
 }
 
@@ -24,6 +25,7 @@ impl BlockDecoder {
             initialized: false,
             decoder: None,
             block_size: 0,
+            encoding_symbol_length: 0,
         }
     }
 
@@ -91,6 +93,7 @@ impl BlockDecoder {
 
         self.initialized = true;
         self.block_size = block_size;
+        self.encoding_symbol_length = oti.encoding_symbol_length as usize;
         Ok(())
     }
 
@@ -121,6 +124,16 @@ impl BlockDecoder {
         }
 
         let payload = &pkt.data[pkt.data_payload_offset..];
+        if payload.len() > self.encoding_symbol_length {
+            // The memory a block may hold is accounted in symbols of the announced length
+            log::warn!(
+                "Discard symbol esi={} of {} bytes, encoding symbol length is {}",
+                payload_id.esi,
+                payload.len(),
+                self.encoding_symbol_length
+            );
+            return;
+        }
         let decoder = self.decoder.as_mut().unwrap();
         decoder.push_symbol(payload, payload_id.esi);
 
